@@ -934,6 +934,45 @@ def asset_burst(seed):
     return '\n'.join(lines) + '\n', dict(enabled={p: (1, 1, 1) for p in range(n)})
 
 
+def asset_overwrite_back(seed):
+    """C06 "overwriting the asset under the same uuid propagates the new content in the same way": one
+    peer overwrites an asset 2..4 times, a frame of its own each, while the receivers are not scheduled
+    (they handle all the announcements in ONE frame); after the drain a RECEIVER overwrites the same
+    uuid, then possibly the first publisher again: every overwrite must reach everybody."""
+    r = random.Random(seed)
+    n = r.choice([2, 3, 3])
+    lines = _header(r, n, [0], v6=(r.random() < 0.15))
+    for p in range(n):
+        lines.append('OP %d switches 1 1 1' % p)
+        lines.append('OP %d setup' % p)
+    lines.append('ROUND %d' % r.randint(6, 9))
+    lines.append('DRAIN 40')
+    val = 700
+    for rnd in range(r.randint(1, 2)):
+        pub = r.choice(range(n))
+        kk = r.choice([0, 0, 0, 1, 2, 3])
+        aid = 7000 + 10 * rnd + kk
+        others = [q for q in range(n) if q != pub]
+        for _ in range(r.randint(2, 4)):
+            val += 1
+            lines.append('OP %d addasset %d %d %d' % (pub, kk, aid, val))
+            lines.append('FRAME %d 1' % pub)
+        if pub != 0:
+            lines.append('FRAME 0 1')          # the host receives (and relays) all of them in one frame
+        for q in others:
+            if q != 0:
+                lines.append('FRAME %d 2' % q)
+        lines.append('SLEEP %d' % r.choice([100, 300]))
+        lines.append('DRAIN 80')
+        for _ in range(r.randint(1, 3)):
+            w = r.choice(others) if r.random() < 0.75 else pub
+            val += 1
+            lines.append('OP %d addasset %d %d %d' % (w, kk, aid, val))
+            lines.append('SLEEP 100')
+            lines.append('DRAIN 80')
+    return '\n'.join(lines) + '\n', dict(enabled={p: (1, 1, 1) for p in range(n)})
+
+
 def companions_present(seed):
     """C17 "leaves already present companions untouched": a replica carries a GlobalTransform of the
     application's own (written locally on the receiving peer, not synchronized) BEFORE the Transform
@@ -965,6 +1004,36 @@ def companions_present(seed):
         lines.append('DRAIN 40')
     lines.append('DRAIN 60')
     return '\n'.join(lines) + '\n', dict(own={'%d:%d' % k: v for k, v in own.items()})
+
+
+def promotion_backlog(seed):
+    """C07: a second client joins a session with a snapshot of a few MB (renet hands out about 60 kB per
+    connection and frame) and the host promotes the first client while that snapshot is still being
+    transmitted: NewHost sits behind the backlog on the joiner's ordered channel. The joiner must end as
+    a client of the new host with everything the old host held, and a write it makes afterwards must
+    reach everybody."""
+    r = random.Random(seed)
+    lines = _header(r, 3, [0, 7])
+    lines += ['OP 0 setup', 'OP 1 setup', 'ROUND 8']
+    k = r.randint(12, 24)
+    for h in range(1, k + 1):
+        lines.append('OP 0 spawn %d 1 0:%d 7:%d' % (h, h, 100000 + h))
+        if h % 4 == 0:
+            lines.append('ROUND 2')
+    lines.append('DRAIN 120')
+    lines.append('OP 2 setup')
+    lines.append('UNTILCONN 2 60')
+    lines.append('ROUND %d' % r.randint(1, 4))
+    lines.append('OP 0 promote 1')
+    lines.append('ROUND %d' % (k * 2 + 30))
+    # the old host learns of the joiner's departure through renet's time-out only (15 s of its own clock)
+    for _ in range(68):
+        lines.append('SLEEP 260')
+        lines.append('ROUND 1')
+    lines.append('DRAIN 60')
+    lines.append('OP 2 write %d 0 %d' % (r.randint(1, k), 500 + r.randint(0, 99)))
+    lines.append('DRAIN 60')
+    return '\n'.join(lines) + '\n', dict(entities=k)
 
 
 def session(seed):
